@@ -8,13 +8,13 @@ EXTENDS Serde, Json
 
 Emit ==
     (phase = "load" /\ hyd = <<>>) =>
-        PrintT(<<"CASE", ToJson([entries |-> entries, fault |-> fault])>>)
+        PrintT(<<"CASE", ToJson([entries |-> entries, fault |-> fault, pooled |-> pooled])>>)
 
 Pick(S) == {RandomElement(S)}
 RandLines(j) == [i \in 1..RandomElement(MinLines..MaxLines) |-> RandomElement(LineSet)]   \* parameter: no caching
 
 DehydrateSim ==
-    /\ phase = "collect" /\ pos <= N
+    /\ phase = "collect" /\ pos <= N /\ inflight.c = 0
     /\ \E k \in Pick(Kinds), m \in Pick(IF MaxElems = 0 THEN {FALSE} ELSE BOOLEAN),
           fl \in Pick(IF MayFail THEN {FALSE, FALSE, FALSE, TRUE} ELSE {FALSE}) :
        \E sa \in Pick(IF m THEN SaveAsOf(k) \ {"file"} ELSE SaveAsOf(k)),
@@ -33,8 +33,8 @@ CorruptSim ==
          /\ meta' = DamageAll(g, {c \in Comp : g[c] # "none"}, meta)
          /\ data' = {d \in data : ~\E c \in Comp : g[c] = "datagone" /\ d.rel \in RelsOf(c)}
     /\ phase' = "load"
-    /\ UNCHANGED <<entries, pos, hyd, loaded>>
+    /\ UNCHANGED <<entries, pos, hyd, loaded, pooled, inflight>>
 
-NextSim == DehydrateSim \/ CorruptSim \/ HydrateAny \/ Finish
+NextSim == DehydrateSim \/ SerializeAny \/ DehydrateEnd \/ CorruptSim \/ HydrateAny \/ Finish
 SpecSim == Init /\ [][NextSim]_vars
 =============================================================================
